@@ -205,6 +205,69 @@ static int unread(void)
 	return left;
 }
 
+/* ---- `xc`: a deferrable reply context armed through the C++ wrapper reply_data::set (mpt++/event.cpp) ---- */
+static metatype *xctx;
+static int xtransport;
+static int xsend(void *ptr, const reply_data *rd, const struct message *msg)
+{
+	sep();
+	lg(ptr == &xtransport ? "send[id=" : "send[WRONG-TRANSPORT id=");
+	if (rd->len) lghex(rd->val, rd->len); else lg("-");
+	lg(" msg=");
+	lgmsg(msg);
+	lg("]->ok");
+	return 0;
+}
+static void xc_release(void)
+{
+	if (xctx) { xctx->unref(); xctx = 0; }
+	loglen = 0;
+}
+/* returns 1 if the line was an `xc` op */
+static int xc_op(void)
+{
+	if (drv_nw < 2 || strcmp(drv_w[0], "xc")) return 0;
+	const char *op = drv_w[1];
+	size_t a;
+	loglen = 0;
+	if (!strcmp(op, "ctx") && drv_nw == 3) {
+		if (drv_parse_nat(drv_w[2], &a) || a > 100000) { puts("bad-op"); return 1; }
+		xc_release();
+		xctx = mpt_reply_deferrable(a, xsend, &xtransport);
+		result(xctx ? "ok" : "refused", "ret=-");
+		return 1;
+	}
+	if (!xctx) { puts("bad-op"); return 1; }
+	reply_data *rd = 0; reply_context *rc = 0;
+	if (!strcmp(op, "arm") && drv_nw == 3) {
+		uint8_t *dat = 0; size_t dlen = 0; int isnull = 0;
+		if (drv_parse_data(drv_w[2], &dat, &dlen, &isnull) || isnull || dlen > 70000) { puts("bad-op"); free(dat); return 1; }
+		if (xctx->convert(type_properties<reply_data *>::id(true), &rd) < 0 || !rd) { result("noconv", "ret=-"); free(dat); return 1; }
+		bool ok = rd->set(dlen, dat);
+		free(dat);
+		result(ok ? "ok ctx=intact" : "refused ctx=intact", "ret=-");
+		return 1;
+	}
+	if (!strcmp(op, "reply") && drv_nw == 3) {
+		uint8_t *dat = 0; size_t dlen = 0; int isnull = 0, none = !strcmp(drv_w[2], "none");
+		if (!none && (drv_parse_data(drv_w[2], &dat, &dlen, &isnull) || isnull)) { puts("bad-op"); free(dat); return 1; }
+		if (xctx->convert(type_properties<reply_context *>::id(true), &rc) < 0 || !rc) { result("noconv", "ret=-"); free(dat); return 1; }
+		struct message m;
+		m.base = dat; m.used = dlen;
+		int r = rc->reply(none ? 0 : &m);
+		free(dat);
+		result(r < 0 ? "refused" : "ok", "ret=-");
+		return 1;
+	}
+	if (!strcmp(op, "drop") && drv_nw == 3 && !strcmp(drv_w[2], "ctx")) {
+		xctx->unref(); xctx = 0;
+		result("ok", "ret=-");
+		return 1;
+	}
+	puts("bad-op");
+	return 1;
+}
+
 int main(void)
 {
 	static char line[1 << 16];
@@ -213,6 +276,7 @@ int main(void)
 		if (line[0] == '#' || line[0] == '\n') { fputs(line, stdout); continue; }
 		drv_split(line);
 		loglen = 0;
+		if (xc_op()) continue;
 		if (drv_nw < 2 || strcmp(drv_w[0], "xr")) { puts("bad-op"); continue; }
 		const char *op = drv_w[1];
 		size_t a;
@@ -311,5 +375,6 @@ int main(void)
 		else puts("bad-op");
 	}
 	drop();
+	xc_release();
 	return 0;
 }
